@@ -32,12 +32,55 @@ class _NoTypes:
         return {"modules": 0, "typed_expressions": 0, "mypy_errors": 0}
 
 
+def _prune_type_dead_none_tests(prog: Program, types) -> int:
+    """`x = E` directly followed by `if x is None: A else: B` where the type checker gives E a type that does not include None: the test
+    is dead, the statement becomes B (resp. A for `is not None`).  This is what sentinel threading (canon C24) leaves in the arm that binds
+    the real value of an inlined Optional-returning helper.  Runs before any CFG / flow fact is derived."""
+    import ast
+    n = 0
+
+    def none_test(t):
+        if isinstance(t, ast.Compare) and len(t.ops) == 1 and isinstance(t.left, ast.Name) and isinstance(t.comparators[0], ast.Constant) and t.comparators[0].value is None \
+                and isinstance(t.ops[0], (ast.Is, ast.IsNot)):
+            return t.left.id, isinstance(t.ops[0], ast.Is)
+        return None
+
+    def walk(fn, body):
+        nonlocal n
+        i = 0
+        while i < len(body):
+            st = body[i]
+            for fld in ("body", "orelse", "finalbody"):
+                b = getattr(st, fld, None)
+                if isinstance(b, list) and b and isinstance(b[0], ast.stmt):
+                    walk(fn, b)
+            if isinstance(st, ast.Try):
+                for h in st.handlers:
+                    walk(fn, h.body)
+            if isinstance(st, ast.Assign) and len(st.targets) == 1 and isinstance(st.targets[0], ast.Name) and i + 1 < len(body) and isinstance(body[i + 1], ast.If) \
+                    and hasattr(st.value, "lineno") and hasattr(st.value, "end_col_offset"):
+                nt = none_test(body[i + 1].test)
+                if nt is not None and nt[0] == st.targets[0].id:
+                    td = types.of(fn.module, st.value)
+                    if td.known and not td.any and "builtins.None" not in td.classes:
+                        live = body[i + 1].orelse if nt[1] else body[i + 1].body
+                        body[i + 1:i + 2] = live
+                        n += 1
+                        continue
+            i += 1
+    for fn in prog.all_functions():
+        if isinstance(fn.node, (ast.FunctionDef, ast.AsyncFunctionDef)):
+            walk(fn, fn.node.body)
+    return n
+
+
 class Engine:
     def __init__(self, repo: Optional[str] = None, typed: bool = True):
         t0 = time.time()
         self.repo = os.path.abspath(repo or DEFAULT_REPO)
         self.prog = Program(self.repo)
         self.types = Types(self.prog) if typed else _NoTypes()
+        self.type_pruned = _prune_type_dead_none_tests(self.prog, self.types) if typed else 0
         self.cg = CallGraph(self.prog, self.types)
         self.flow = Flow(self.prog, self.cg)
         self.build_s = time.time() - t0
